@@ -222,7 +222,8 @@ func (g *c08Gen) walk(name string, v VT, maxSteps int) (path string, leaf VT, st
 			st = refNil
 		case kind == "imap" && valid && last:
 			k := []int{1, 2, 3}[r.Intn(3)]
-			path += fmt.Sprintf("[%d]", k)
+			// the key written as a number or computed: an integer is an int whatever operator made it
+			path += "[" + r.Pick([]string{fmt.Sprint(k), fmt.Sprintf("%d * 1", k), fmt.Sprintf("%d / 2", 2*k), fmt.Sprintf("%d %% 4", k+4), fmt.Sprintf("%d + 1", k-1), fmt.Sprintf("%d - 1", k+1)}) + "]"
 			found := false
 			for j, kk := range dv.IKeys {
 				if int(kk) == k {
@@ -259,7 +260,51 @@ func (g *c08Gen) walk(name string, v VT, maxSteps int) (path string, leaf VT, st
 	return
 }
 
+// two distinct struct types that print the same type name (local types of two functions):
+// a field is found by the type it belongs to, whatever was resolved before in this process
+func c08RecA() any {
+	type Rec struct {
+		Name   string
+		Amount int
+		Unit   string
+	}
+	return Rec{"stock", 7, "kg"}
+}
+
+func c08RecB() any {
+	type Rec struct {
+		Amount int
+		Unit   string
+		Extra  []int
+		Name   string
+	}
+	return Rec{7, "kg", nil, "stock"}
+}
+
+func c08RecC() any {
+	type Rec struct {
+		Unit string
+	}
+	return &Rec{"kg"}
+}
+
+func c08SameNameTypes(cfg Config, res *Result) {
+	recs := []any{c08RecA(), c08RecB(), c08RecC()}
+	wants := []string{"stock/7/kg/n", "stock/7/kg/n", "//kg/n"}
+	src := "{{ r.Name }}/{{ r.Amount }}/{{ r[\"Unit\"] }}/{% if r.Missing %}y{% else %}n{% endif %}"
+	for round := 0; round < 3; round++ {
+		for j, r := range recs {
+			res.Cases++
+			o := implRender(src, pongo2.Context{"r": r})
+			if o.Panicked || o.Err != "" || o.Out != wants[j] {
+				res.add(Finding{Kind: "oracle", Proj: "resolver", Sig: "c08-same-named-types", Case: fmt.Sprintf("%s with r = %#v (after values of other struct types called %T were resolved)", src, r, r), Impl: o.String(), Model: "ok " + hx(wants[j])})
+			}
+		}
+	}
+}
+
 func suiteC08(cfg Config, res *Result) {
+	defer c08SameNameTypes(cfg, res)
 	res.Rule = "random nested contexts (maps with string and int keys, slices, structs with exported and unexported fields, pointers incl. nil, *Value boxes, scalars, nil) x access paths built by walking them (valid steps by dot and by a final subscript, plus arbitrary name/index steps: missing keys, out-of-range indexes, unexported fields, indexes on maps and scalars, nil along the way); reference resolver over the terms gives the expected leaf / empty value / execution error; oracle (model-free): `{{ path }}`, `{{ path|length }}` and `{% if path %}` render exactly like the same template over the leaf bound directly, the empty value renders empty without error, an error is an execution error; also compared with the Lean model; non-trivial = path with >= 2 steps; distinct by (context, path)"
 	n := 5000
 	if cfg.Thorough() {
@@ -355,7 +400,8 @@ func suiteC08Calls(cfg Config, res *Result) {
 		vals = append(vals, vFunc(id))
 	}
 	ct := CtxTerm{Names: names, Vals: vals}
-	argPool := []string{"1", "-2", `"x"`, "2.5", "true", "s", "i", "fl", "t", "n", "li", "m", "st", "p", "la", "bx", "sf", "0", `""`, "i|add:1", "s|upper", "undefined", "np"}
+	argPool := []string{"1", "-2", `"x"`, "2.5", "true", "s", "i", "fl", "t", "n", "li", "m", "st", "p", "la", "bx", "sf", "0", `""`, "i|add:1", "s|upper", "undefined", "np",
+		"i * 2", "i / 2", "i % 3", "i + 1", "i - 1", "2 * 3"}
 	var cases []ProgCase
 	for i := 0; i < n; i++ {
 		var callee string
@@ -407,7 +453,7 @@ func suiteC08Calls(cfg Config, res *Result) {
 		{"p.GetB", pst.GetB()}, {"st.Sum(1, 2, i)", st.Sum(1, 2, 5)}, {"st.Sum()", st.Sum()}, {"f0()", goFuncs[0].(func() string)()}, {"f0", goFuncs[0].(func() string)()},
 		{"f1(4)", goFuncs[1].(func(int) int)(4)}, {`f2("a", 3)`, goFuncs[2].(func(string, int) string)("a", 3)}, {"f3(1, 2, 3)", goFuncs[3].(func(...int) int)(1, 2, 3)},
 		{"f3()", goFuncs[3].(func(...int) int)()}, {`f4("p", "x", "y")`, goFuncs[4].(func(string, ...string) string)("p", "x", "y")}, {"f8(i)", 6}, {`f10("q")`, "q@"},
-		{"f11(li)|length", 2}, {"f19(li)", 2}, {"f20(m)", 1}, {"f21(st)", st.A}, {`f22(1, "z")`, "z"}, {"f17(fl)", 3.0}, {"f18(t)", false},
+		{"f11(li)|length", 2}, {"f19(li)", 2}, {"f1(i * 2)", 20}, {"f1(7 / 2)", 6}, {"f1(7 % 4)", 6}, {"f3(i * 1, 2 * 2)", 9}, {"st.Sum(i % 3, 2 * 3)", 8}, {"f8(i - 1)", 5}, {"f20(m)", 1}, {"f21(st)", st.A}, {`f22(1, "z")`, "z"}, {"f17(fl)", 3.0}, {"f18(t)", false},
 	}
 	wantDirect := map[string]string{}
 	for _, d := range direct {
